@@ -29,9 +29,11 @@ import (
 	"github.com/BondMachineHQ/BondMachine/pkg/bondmachine"
 	"github.com/BondMachineHQ/BondMachine/pkg/simbox"
 
+	"verif/harness/bmgen"
 	"verif/harness/evid"
 	"verif/harness/tlaval"
 	"verif/harness/tlc"
+	"verif/harness/vlog"
 )
 
 func init() { register("C04", "model_checking", runC04) }
@@ -68,6 +70,7 @@ type bondTick struct {
 	CRecv  []bool     `json:"-"`
 	CDef   []bool     `json:"-"`
 	CCap   [][]uint64 `json:"-"`
+	Waitsm bool       `json:"-"`
 	Cause  string     `json:"-"` // root-cause predicate evaluated on the real pre-state
 }
 
@@ -207,6 +210,185 @@ func runBondSim(p bondProg, nticks int) ([]bondTick, error) {
 	return out, nil
 }
 
+
+// ---- generated-hardware back-end ---------------------------------------------------------------
+
+func opsProgramHdl(ops []string) string {
+	var sb strings.Builder
+	sb.WriteString(opsProgram(ops, true))
+	fmt.Fprintf(&sb, "j %d\n", len(ops)) // end of program: jump to itself
+	return sb.String()
+}
+
+func buildBondMachineHdl(p bondProg) (*bondmachine.Bondmachine, error) {
+	bm := newBM(8)
+	ops := []string{"nop", "r2owa", "i2rw", "j"}
+	pm, err := mkMachine(8, 3, 0, 1, 0, ops, opsProgramHdl(p.Prod))
+	if err != nil {
+		return nil, fmt.Errorf("producer: %v", err)
+	}
+	addProc(bm, pm)
+	for i, c := range p.Cons {
+		cm, err := mkMachine(8, 3, 1, 0, 0, ops, opsProgramHdl(c))
+		if err != nil {
+			return nil, fmt.Errorf("consumer %d: %v", i, err)
+		}
+		addProc(bm, cm)
+	}
+	for i := range p.Cons {
+		bm.Add_bond([]string{"p" + strconv.Itoa(i+1) + "i0", "p0o0"})
+	}
+	return bm, nil
+}
+
+// elaborateBM renders the real Verilog file set of bm and loads it in the interpreter.
+func elaborateBM(bm *bondmachine.Bondmachine) (*vlog.Sim, map[string]string, error) {
+	files, order, err := bmgen.VerilogFiles(bm, new(bondmachine.Config), "iverilog")
+	if err != nil {
+		return nil, nil, err
+	}
+	var srcs []string
+	for _, n := range order {
+		srcs = append(srcs, files[n])
+	}
+	d, err := vlog.Parse(srcs...)
+	if err != nil {
+		return nil, files, fmt.Errorf("generated Verilog does not parse: %v", err)
+	}
+	sim, err := vlog.Elaborate(d, "bondmachine")
+	if err != nil {
+		return nil, files, fmt.Errorf("generated Verilog does not elaborate: %v", err)
+	}
+	return sim, files, nil
+}
+
+func procPath(i int) string { return fmt.Sprintf("a%d_inst.p%d_instance.", i, i) }
+
+// runBondHdl executes the programs on the real generated Verilog for nclk clocks.
+func runBondHdl(p bondProg, nclk int) ([]bondTick, error) {
+	bm, err := buildBondMachineHdl(p)
+	if err != nil {
+		return nil, err
+	}
+	sim, _, err := elaborateBM(bm)
+	if err != nil {
+		return nil, err
+	}
+	K := len(p.Cons)
+	sim.Set("reset", 1)
+	if err := sim.Step("clk"); err != nil {
+		return nil, err
+	}
+	sim.Set("reset", 0)
+	pp := procPath(0)
+	for i := 1; i < 8; i++ {
+		if err := sim.Set(pp+"_r"+strconv.Itoa(i), uint64(i)); err != nil {
+			return nil, err
+		}
+	}
+	if err := sim.Settle(); err != nil {
+		return nil, err
+	}
+	get := func(n string) uint64 { v, _ := sim.Get(n); return v }
+	out := []bondTick{{Ev: "reset", K: K, Iss: []uint64{}, Crs: []bondCR{}}}
+	started := map[uint64]bool{}
+	caps := make([][]uint64, K)
+	recvIdx := func(ops []string, pc uint64) int {
+		n := 0
+		for i := uint64(0); i < pc; i++ {
+			if ops[i] == "RECV" {
+				n++
+			}
+		}
+		return n
+	}
+	for t := 0; t < nclk; t++ {
+		bt := bondTick{Ev: "tick", Iss: []uint64{}, Crs: []bondCR{}}
+		ppc := get(pp + "_pc")
+		pAtSend := ppc < uint64(len(p.Prod)) && p.Prod[ppc] == "SEND"
+		if pAtSend && !started[ppc] {
+			started[ppc] = true
+			n := 0
+			for i := uint64(0); i <= ppc; i++ {
+				if p.Prod[i] == "SEND" {
+					n++
+				}
+			}
+			bt.Iss = append(bt.Iss, get(pp+"_r"+strconv.Itoa(n)))
+		}
+		cpc := make([]uint64, K)
+		crecvBefore := make([]bool, K)
+		for c := 0; c < K; c++ {
+			cpc[c] = get(procPath(c+1) + "_pc")
+			crecvBefore[c] = get(procPath(c+1)+"i0_recv") == 1
+		}
+		if err := sim.Step("clk"); err != nil {
+			return out, fmt.Errorf("clock %d: %v", t, err)
+		}
+		if pAtSend && get(pp+"_pc") == ppc+1 {
+			bt.Pr = true
+		}
+		f1 := false
+		for c := 0; c < K; c++ {
+			cp := procPath(c + 1)
+			ops := p.Cons[c]
+			if cpc[c] < uint64(len(ops)) && ops[cpc[c]] == "RECV" && get(cp+"_pc") == cpc[c]+1 {
+				v, known := sim.Get(cp + "_r" + strconv.Itoa(recvIdx(ops, cpc[c])))
+				if !known {
+					v = 1 << 40 // an unknown (X) value was captured: never equal to a sent value
+				}
+				bt.Crs = append(bt.Crs, bondCR{C: c + 1, V: v})
+				caps[c] = append(caps[c], v)
+				if crecvBefore[c] {
+					f1 = true
+				}
+			}
+		}
+		if f1 {
+			bt.Cause = causeF1
+		} else {
+			bt.Cause = "other"
+		}
+		bt.PValid = get(pp+"o0_val") == 1
+		bt.POut = get(pp + "_auxo0")
+		bt.Waitsm = get(pp+"waitsm") == 1
+		for c := 0; c < K; c++ {
+			bt.CRecv = append(bt.CRecv, get(procPath(c+1)+"i0_recv") == 1)
+			bt.CCap = append(bt.CCap, append([]uint64{}, caps[c]...))
+		}
+		out = append(out, bt)
+	}
+	return out, nil
+}
+
+// lockstepHdl compares the real hardware's per-clock registers with the model behaviour.
+func lockstepHdl(states []tlc.State, ticks []bondTick) (mismatch string) {
+	for i := 1; i < len(states) && i < len(ticks); i++ {
+		st := states[i].Vars
+		bt := ticks[i]
+		if tlaval.Bool(st["oval"]) != bt.PValid {
+			return fmt.Sprintf("clock %d: o0_val model=%v real=%v", i, st["oval"], bt.PValid)
+		}
+		if tlaval.Bool(st["waitsm"]) != bt.Waitsm {
+			return fmt.Sprintf("clock %d: waitsm model=%v real=%v", i, st["waitsm"], bt.Waitsm)
+		}
+		if tlaval.Bool(st["oval"]) && uint64(tlaval.Int(st["auxo"])) != bt.POut {
+			return fmt.Sprintf("clock %d: _auxo0 model=%v real=%v", i, st["auxo"], bt.POut)
+		}
+		for c, v := range tlaval.AsSeq(st["crecv"]) {
+			if tlaval.Bool(v) != bt.CRecv[c] {
+				return fmt.Sprintf("clock %d: i0_recv[%d] model=%v real=%v", i, c+1, v, bt.CRecv[c])
+			}
+		}
+		for c, v := range tlaval.AsSeq(st["ccap"]) {
+			if fmt.Sprint(u64Seq(v)) != fmt.Sprint(bt.CCap[c]) {
+				return fmt.Sprintf("clock %d: captured[%d] model=%v real=%v", i, c+1, u64Seq(v), bt.CCap[c])
+			}
+		}
+	}
+	return ""
+}
+
 // progFromBehaviour extracts the straight-line programs a BMBondSim/BMBondHdl behaviour chose.
 func progFromBehaviour(states []tlc.State) bondProg {
 	var p bondProg
@@ -335,73 +517,66 @@ func runC04(r *evid.Run) {
 	var firstMismatch interface{}
 	var states, generated int64
 
-	// ---------------- simulator back-end ----------------------------------------------------
-	runSimBehaviour := func(source string, beh []tlc.State) {
-		if len(beh) < 2 {
-			return
-		}
-		p := progFromBehaviour(beh)
-		nt := len(beh) - 1 + 6
-		ticks, err := runBondSim(p, nt)
-		if err != nil {
-			r.Inconclusive("real simulator failed on %v: %v", p, err)
-			return
-		}
-		if mm := lockstepSim(beh, ticks); mm != "" {
-			lockMismatch++
-			if firstMismatch == nil {
-				firstMismatch = map[string]interface{}{"backend": "sim", "source": source, "prog": p, "mismatch": mm}
+	type backend struct {
+		name     string
+		module   string
+		run      func(bondProg, int) ([]bondTick, error)
+		lockstep func([]tlc.State, []bondTick) string
+		knownInv []string // invariants whose counterexamples are the known findings
+		maxSend  int      // distinct registers available for sent values
+		delays   bool
+	}
+	backends := []backend{
+		{"sim", "BMBondSim", runBondSim, lockstepSim, []string{"NoF1", "NoF2"}, 10, true},
+		{"hdl", "BMBondHdl", runBondHdl, lockstepHdl, []string{"NoF1", "NoStuck"}, 7, false},
+	}
+	if be := os.Getenv("VERIF_C04_BACKEND"); be != "" {
+		var sel []backend
+		for _, b := range backends {
+			if b.name == be {
+				sel = append(sel, b)
 			}
 		}
-		record(&bondCase{Backend: "sim", Source: source, Prog: p, Ticks: nt}, ticks)
-		r.Distinct("sim|" + fmt.Sprint(p))
+		backends = sel
 	}
-
-	type mc struct {
-		k, send, pad int
-		avoid        bool
-		inv          []string
-	}
-	exh := []mc{
-		{1, 3, 2, true, []string{"NoViolation", "AtMostOneAhead", "NoEarlyProducer"}},
-		{2, 3, 2, true, []string{"NoViolation", "AtMostOneAhead", "NoEarlyProducer"}},
-		{3, 3, 2, true, []string{"NoViolation", "AtMostOneAhead", "NoEarlyProducer"}},
-		{1, 3, 2, false, []string{"OnlyKnownCauses", "AtMostOneAhead"}},
-		{2, 3, 2, false, []string{"OnlyKnownCauses", "AtMostOneAhead"}},
-		{3, 3, 2, false, []string{"OnlyKnownCauses", "AtMostOneAhead"}},
-	}
-	if r.Thorough() {
-		exh = append(exh,
-			mc{2, 6, 4, true, []string{"NoViolation", "AtMostOneAhead", "NoEarlyProducer"}},
-			mc{3, 5, 3, true, []string{"NoViolation", "AtMostOneAhead", "NoEarlyProducer"}},
-			mc{4, 3, 2, true, []string{"NoViolation", "AtMostOneAhead", "NoEarlyProducer"}},
-			mc{3, 5, 3, false, []string{"OnlyKnownCauses", "AtMostOneAhead"}},
-		)
-	}
-	for _, m := range exh {
-		res, err := tlc.Run(tlc.Options{SpecDir: specDir, Module: "BMBondSim", CfgText: bondCfg(m.k, m.send, m.pad, m.avoid, m.inv...), Workers: 8, Timeout: 20 * time.Minute})
-		if err != nil {
-			r.Inconclusive("tlc: %v", err)
-			return
+	hangs := map[string]int64{}
+	for _, be := range backends {
+		be := be
+		runBehaviour := func(source string, beh []tlc.State) bool {
+			if len(beh) < 2 {
+				return true
+			}
+			p := progFromBehaviour(beh)
+			nt := len(beh) - 1 + 8
+			ticks, err := be.run(p, nt)
+			if err != nil {
+				r.Inconclusive("real %s back-end failed on %v: %v", be.name, p, err)
+				return false
+			}
+			if mm := be.lockstep(beh, ticks); mm != "" {
+				lockMismatch++
+				if firstMismatch == nil {
+					firstMismatch = map[string]interface{}{"backend": be.name, "source": source, "prog": p, "mismatch": mm}
+				}
+			}
+			record(&bondCase{Backend: be.name, Source: source, Prog: p, Ticks: nt}, ticks)
+			r.Distinct(be.name + "|" + fmt.Sprint(p))
+			return true
 		}
-		states += res.Distinct
-		generated += res.Generated
-		if res.Violation == "invariant" {
-			// a candidate: the model (as coded) admits a violation with an unknown cause, or one while
-			// avoiding the known situations.  It only counts if the real code reproduces it.
-			runSimBehaviour(fmt.Sprintf("counterexample:%s:k=%d", res.ViolationName, m.k), res.Trace)
-			r.Set("model_candidate", fmt.Sprintf("BMBondSim k=%d avoid=%v violates %s", m.k, m.avoid, res.ViolationName))
-			continue
+		type mc struct {
+			k, send, pad int
+			avoid        bool
+			inv          []string
 		}
-		if !res.OK() {
-			r.Inconclusive("TLC failed on BMBondSim k=%d: %s %s", m.k, res.Violation, res.Error)
-			return
+		clean := []string{"NoViolation", "AtMostOneAhead", "NoEarlyProducer"}
+		known := []string{"OnlyKnownCauses", "AtMostOneAhead"}
+		exh := []mc{{1, 3, 2, true, clean}, {2, 3, 2, true, clean}, {3, 3, 2, true, clean},
+			{1, 3, 2, false, known}, {2, 3, 2, false, known}, {3, 3, 2, false, known}}
+		if r.Thorough() {
+			exh = append(exh, mc{2, 6, 4, true, clean}, mc{3, 5, 3, true, clean}, mc{4, 3, 2, true, clean}, mc{3, 5, 3, false, known})
 		}
-	}
-	// counterexamples for the two known root causes (expected to exist in the as-coded model)
-	for _, inv := range []string{"NoF1", "NoF2"} {
-		for k := 1; k <= 2; k++ {
-			res, err := tlc.Run(tlc.Options{SpecDir: specDir, Module: "BMBondSim", CfgText: bondCfg(k, 3, 2, false, inv), Workers: 4, Timeout: 10 * time.Minute})
+		for _, m := range exh {
+			res, err := tlc.Run(tlc.Options{SpecDir: specDir, Module: be.module, CfgText: bondCfg(m.k, m.send, m.pad, m.avoid, m.inv...), Workers: 8, Timeout: 20 * time.Minute})
 			if err != nil {
 				r.Inconclusive("tlc: %v", err)
 				return
@@ -409,86 +584,134 @@ func runC04(r *evid.Run) {
 			states += res.Distinct
 			generated += res.Generated
 			if res.Violation == "invariant" {
-				runSimBehaviour(fmt.Sprintf("counterexample:%s:k=%d", inv, k), res.Trace)
+				// a candidate: the model (as coded) admits a violation with an unknown cause, or one while
+				// avoiding the known situations.  It only counts if the real artefact reproduces it.
+				runBehaviour(fmt.Sprintf("counterexample:%s:k=%d", res.ViolationName, m.k), res.Trace)
+				r.Set("model_candidate_"+be.name, fmt.Sprintf("%s k=%d avoid=%v violates %s", be.module, m.k, m.avoid, res.ViolationName))
+				continue
 			}
-		}
-	}
-	// random behaviours of the model, both modes
-	nSim := r.Pick(150, 2500)
-	for _, avoid := range []bool{true, false} {
-		for k := 1; k <= 3; k++ {
-			dir := filepath.Join(scratch, fmt.Sprintf("sim_%v_%d", avoid, k))
-			os.MkdirAll(dir, 0o755)
-			cfg := strings.Replace(bondCfg(k, 6, 3, avoid), "VIEW view\n", "", 1)
-			res, err := tlc.Run(tlc.Options{SpecDir: specDir, Module: "BMBondSim", CfgText: cfg, Workers: 1, Timeout: 10 * time.Minute,
-				Args: []string{"-simulate", fmt.Sprintf("file=%s/b,num=%d", dir, nSim), "-depth", "40", "-seed", strconv.FormatInt(r.Seed*7+int64(k), 10)}})
-			if err != nil {
-				r.Inconclusive("tlc simulate: %v", err)
+			if !res.OK() {
+				r.Inconclusive("TLC failed on %s k=%d: %s %s", be.module, m.k, res.Violation, res.Error)
 				return
 			}
-			_ = res
-			files, _ := filepath.Glob(filepath.Join(dir, "b_*"))
-			sort.Strings(files)
-			for _, f := range files {
-				beh, err := tlc.ParseSimFile(f)
+		}
+		// counterexamples for the known situations (expected to exist in the as-coded model)
+		for _, inv := range be.knownInv {
+			for k := 1; k <= 2; k++ {
+				res, err := tlc.Run(tlc.Options{SpecDir: specDir, Module: be.module, CfgText: bondCfg(k, 3, 2, false, inv), Workers: 4, Timeout: 10 * time.Minute})
 				if err != nil {
-					r.Inconclusive("parse %s: %v", f, err)
+					r.Inconclusive("tlc: %v", err)
 					return
 				}
-				runSimBehaviour(fmt.Sprintf("simulate:avoid=%v:k=%d", avoid, k), beh)
+				states += res.Distinct
+				generated += res.Generated
+				if res.Violation == "invariant" {
+					if inv == "NoStuck" {
+						// the predicted hardware hang: replay and observe that no register changes any more
+						p := progFromBehaviour(res.Trace)
+						ticks, err := be.run(p, len(res.Trace)+40)
+						if err == nil && len(ticks) > 12 {
+							last := ticks[len(ticks)-1]
+							prev := ticks[len(ticks)-10]
+							if last.PValid && prev.PValid && !last.Waitsm && fmt.Sprint(last.CCap) == fmt.Sprint(prev.CCap) {
+								hangs[fmt.Sprint(p)]++
+							}
+						}
+						continue
+					}
+					runBehaviour(fmt.Sprintf("counterexample:%s:k=%d", inv, k), res.Trace)
+				}
 			}
-			os.RemoveAll(dir)
 		}
-	}
-	// random programs beyond the model bounds (more sends, fan-out up to 4, fixed opcode delays)
-	nRand := r.Pick(200, 4000)
-	for i := 0; i < nRand; i++ {
-		k := 1 + rng.Intn(4)
-		var p bondProg
-		nsend := 1 + rng.Intn(10)
-		gen := func(io string, n int, padMax int) []string {
-			var ops []string
-			for j := 0; j < n; j++ {
+		// random behaviours of the model, both modes
+		nSim := r.Pick(150, 2500)
+		if be.name == "hdl" {
+			nSim = r.Pick(40, 600)
+		}
+		for _, avoid := range []bool{true, false} {
+			for k := 1; k <= 3; k++ {
+				dir := filepath.Join(scratch, fmt.Sprintf("sim_%s_%v_%d", be.name, avoid, k))
+				os.MkdirAll(dir, 0o755)
+				ms := 6
+				if ms > be.maxSend {
+					ms = be.maxSend
+				}
+				cfg := strings.Replace(bondCfg(k, ms, 3, avoid), "VIEW view\n", "", 1)
+				_, err := tlc.Run(tlc.Options{SpecDir: specDir, Module: be.module, CfgText: cfg, Workers: 1, Timeout: 10 * time.Minute,
+					Args: []string{"-simulate", fmt.Sprintf("file=%s/b,num=%d", dir, nSim), "-depth", "40", "-seed", strconv.FormatInt(r.Seed*7+int64(k), 10)}})
+				if err != nil {
+					r.Inconclusive("tlc simulate: %v", err)
+					return
+				}
+				files, _ := filepath.Glob(filepath.Join(dir, "b_*"))
+				sort.Strings(files)
+				for _, f := range files {
+					beh, err := tlc.ParseSimFile(f)
+					if err != nil {
+						r.Inconclusive("parse %s: %v", f, err)
+						return
+					}
+					if !runBehaviour(fmt.Sprintf("simulate:avoid=%v:k=%d", avoid, k), beh) {
+						return
+					}
+				}
+				os.RemoveAll(dir)
+			}
+		}
+		// random programs beyond the model bounds (more sends, fan-out up to 4, fixed opcode delays)
+		nRand := r.Pick(200, 4000)
+		if be.name == "hdl" {
+			nRand = r.Pick(60, 800)
+		}
+		for i := 0; i < nRand; i++ {
+			k := 1 + rng.Intn(4)
+			var p bondProg
+			nsend := 1 + rng.Intn(be.maxSend)
+			gen := func(io string, n int, padMax int) []string {
+				var ops []string
+				for j := 0; j < n; j++ {
+					for q := rng.Intn(padMax + 1); q > 0; q-- {
+						ops = append(ops, "PAD")
+					}
+					ops = append(ops, io)
+				}
 				for q := rng.Intn(padMax + 1); q > 0; q-- {
 					ops = append(ops, "PAD")
 				}
-				ops = append(ops, io)
+				return ops
 			}
-			for q := rng.Intn(padMax + 1); q > 0; q-- {
-				ops = append(ops, "PAD")
+			padMax := rng.Intn(5)
+			p.Prod = gen("SEND", nsend, padMax)
+			for c := 0; c < k; c++ {
+				n := nsend
+				if rng.Intn(4) == 0 {
+					n = rng.Intn(nsend + 1)
+				}
+				ops := gen("RECV", n, rng.Intn(6))
+				if len(ops) == 0 {
+					ops = []string{"PAD"}
+				}
+				p.Cons = append(p.Cons, ops)
 			}
-			return ops
-		}
-		padMax := rng.Intn(5)
-		p.Prod = gen("SEND", nsend, padMax)
-		for c := 0; c < k; c++ {
-			n := nsend
-			if rng.Intn(4) == 0 {
-				n = rng.Intn(nsend + 1)
-			}
-			ops := gen("RECV", n, rng.Intn(6))
-			if len(ops) == 0 {
-				ops = []string{"PAD"}
-			}
-			p.Cons = append(p.Cons, ops)
-		}
-		if rng.Intn(3) == 0 {
-			p.Delays = map[string]int{}
-			for _, op := range []string{"nop", "r2owa", "i2rw"} {
-				if rng.Intn(2) == 0 {
-					p.Delays[op] = rng.Intn(4)
+			if be.delays && rng.Intn(3) == 0 {
+				p.Delays = map[string]int{}
+				for _, op := range []string{"nop", "r2owa", "i2rw"} {
+					if rng.Intn(2) == 0 {
+						p.Delays[op] = rng.Intn(4)
+					}
 				}
 			}
+			nt := 40 + 12*nsend*(padMax+2)
+			ticks, err := be.run(p, nt)
+			if err != nil {
+				r.Inconclusive("real %s back-end failed on %v: %v", be.name, p, err)
+				return
+			}
+			record(&bondCase{Backend: be.name, Source: "random", Prog: p, Ticks: nt}, ticks)
+			r.Distinct(be.name + "|" + fmt.Sprint(p))
 		}
-		nt := 40 + 12*nsend*(padMax+2)
-		ticks, err := runBondSim(p, nt)
-		if err != nil {
-			r.Inconclusive("real simulator failed on %v: %v", p, err)
-			return
-		}
-		record(&bondCase{Backend: "sim", Source: "random", Prog: p, Ticks: nt}, ticks)
-		r.Distinct("sim|" + fmt.Sprint(p))
 	}
+	r.Set("hdl_hang_reproduced", hangs)
 	tf.Close()
 
 	r.Set("states", states)
